@@ -59,7 +59,8 @@ void dump_api (mpq_QSdata * p)
 	printf ("nzcount %d\n", nz);
 	{
 		char **cn = (char **) calloc (nc + 1, sizeof (char *));
-		if (!mpq_QSget_colnames (p, cn))
+		if (nc == 0) printf ("colnames 0\n");	/* nothing to ask for */
+		else if (!mpq_QSget_colnames (p, cn))
 		{
 			printf ("colnames %d", nc);
 			for (i = 0; i < nc; i++) { putchar (' '); put_hex (cn[i]); mpq_QSfree (cn[i]); }
@@ -197,7 +198,7 @@ static void cmd_loadbasis (void)
 	mpq_QSdata *p = slot ();
 	QSbasis *B = tok_basis2 ();
 	int rv = mpq_QSload_basis (p, B);
-	printf ("rv %d\n", rv ? 1 : 0);
+	printf ("rc %d\n", rv ? 1 : 0);
 	free (B->cstat); free (B->rstat); free (B);
 }
 static void cmd_putfile (void)
@@ -209,9 +210,227 @@ static void cmd_putfile (void)
 	free (path); free (data);
 }
 
+
+/* ------------------------------------------------------------------ edit operations (C05/C06/C07)
+ * every command prints "rc <0|1>" (the API's return code mapped to ok/err) */
+static char *tok_name (void)
+{
+	const char *t = tok ();
+	if (!strcmp (t, "-")) return 0;
+	return unhex (t);
+}
+static void tok_ent (int *k, int **ind, mpq_t ** val)
+{
+	int i;
+	*k = tok_int ();
+	*ind = (int *) malloc (sizeof (int) * (*k + 1));
+	*val = mpq_EGlpNumAllocArray (*k + 1);
+	for (i = 0; i < *k; i++)
+	{
+		(*ind)[i] = tok_int ();
+		tok_q ((*val)[i]);
+	}
+}
+static int *tok_ints (int *k)
+{
+	int i, *a;
+	*k = tok_int ();
+	a = (int *) malloc (sizeof (int) * (*k + 1));
+	for (i = 0; i < *k; i++) a[i] = tok_int ();
+	return a;
+}
+static char **tok_names (int *k)
+{
+	int i;
+	char **a;
+	*k = tok_int ();
+	a = (char **) calloc (*k + 1, sizeof (char *));
+	for (i = 0; i < *k; i++) a[i] = tok_name ();
+	return a;
+}
+static void put_rc (int rv) { printf ("rc %d\n", rv ? 1 : 0); }
+
+static int edit_commands (const char *c)
+{
+	mpq_QSdata *p;
+	mpq_t a, b, d;
+	int rv = 0, k, *ind = 0, i;
+	mpq_t *val = 0;
+	char *name = 0;
+	mpq_init (a); mpq_init (b); mpq_init (d);
+	if (!strcmp (c, "addcol") || !strcmp (c, "newcol"))
+	{
+		p = slot (); name = tok_name ();
+		tok_q (a); tok_q (b); tok_q (d);
+		if (c[0] == 'a')
+		{
+			tok_ent (&k, &ind, &val);
+			rv = mpq_QSadd_col (p, k, ind, val, a, b, d, name);
+		}
+		else rv = mpq_QSnew_col (p, a, b, d, name);
+		put_rc (rv);
+	}
+	else if (!strcmp (c, "addrow") || !strcmp (c, "addrrow") || !strcmp (c, "newrow"))
+	{
+		int sense;
+		p = slot (); name = tok_name ();
+		sense = tok ()[0];
+		tok_q (a);
+		if (!strcmp (c, "addrrow")) tok_q (b);
+		if (c[0] == 'a')
+		{
+			tok_ent (&k, &ind, &val);
+			if (!strcmp (c, "addrrow"))
+				rv = mpq_QSadd_ranged_row (p, k, ind, (const mpq_t *) val, (const mpq_t *) & a, sense, (const mpq_t *) & b, name);
+			else
+				rv = mpq_QSadd_row (p, k, ind, (const mpq_t *) val, (const mpq_t *) & a, sense, name);
+		}
+		else rv = mpq_QSnew_row (p, a, sense, name);
+		put_rc (rv);
+	}
+	else if (!strcmp (c, "delrow")) { p = slot (); put_rc (mpq_QSdelete_row (p, tok_int ())); }
+	else if (!strcmp (c, "delcol")) { p = slot (); put_rc (mpq_QSdelete_col (p, tok_int ())); }
+	else if (!strcmp (c, "delrows")) { p = slot (); ind = tok_ints (&k); put_rc (mpq_QSdelete_rows (p, k, ind)); }
+	else if (!strcmp (c, "delcols")) { p = slot (); ind = tok_ints (&k); put_rc (mpq_QSdelete_cols (p, k, ind)); }
+	else if (!strcmp (c, "delsetrows"))
+	{
+		p = slot (); ind = tok_ints (&k);
+		if (k != mpq_QSget_rowcount (p)) printf ("bad-op flags-length\n"); else put_rc (mpq_QSdelete_setrows (p, ind));
+	}
+	else if (!strcmp (c, "delsetcols"))
+	{
+		p = slot (); ind = tok_ints (&k);
+		if (k != mpq_QSget_colcount (p)) printf ("bad-op flags-length\n"); else put_rc (mpq_QSdelete_setcols (p, ind));
+	}
+	else if (!strcmp (c, "delnamedrow")) { p = slot (); name = tok_name (); put_rc (mpq_QSdelete_named_row (p, name)); }
+	else if (!strcmp (c, "delnamedcol")) { p = slot (); name = tok_name (); put_rc (mpq_QSdelete_named_column (p, name)); }
+	else if (!strcmp (c, "delnamedrows") || !strcmp (c, "delnamedcols"))
+	{
+		char **names;
+		p = slot (); names = tok_names (&k);
+		rv = c[8] == 'r' ? mpq_QSdelete_named_rows_list (p, k, (const char **) names) : mpq_QSdelete_named_columns_list (p, k, (const char **) names);
+		put_rc (rv);
+		for (i = 0; i < k; i++) free (names[i]);
+		free (names);
+	}
+	else if (!strcmp (c, "chgcoef")) { int r, j; p = slot (); r = tok_int (); j = tok_int (); tok_q (a); put_rc (mpq_QSchange_coef (p, r, j, a)); }
+	else if (!strcmp (c, "chgobj")) { int j; p = slot (); j = tok_int (); tok_q (a); put_rc (mpq_QSchange_objcoef (p, j, a)); }
+	else if (!strcmp (c, "chgrhs")) { int r; p = slot (); r = tok_int (); tok_q (a); put_rc (mpq_QSchange_rhscoef (p, r, a)); }
+	else if (!strcmp (c, "chgrange")) { int r; p = slot (); r = tok_int (); tok_q (a); put_rc (mpq_QSchange_range (p, r, a)); }
+	else if (!strcmp (c, "chgsense")) { int r; p = slot (); r = tok_int (); put_rc (mpq_QSchange_sense (p, r, tok ()[0])); }
+	else if (!strcmp (c, "chgsenses"))
+	{
+		char *ss;
+		p = slot (); k = tok_int ();
+		ind = (int *) malloc (sizeof (int) * (k + 1)); ss = (char *) malloc (k + 1);
+		for (i = 0; i < k; i++) { ind[i] = tok_int (); ss[i] = tok ()[0]; }
+		put_rc (mpq_QSchange_senses (p, k, ind, ss));
+		free (ss);
+	}
+	else if (!strcmp (c, "chgbound")) { int j, lu; p = slot (); j = tok_int (); lu = tok ()[0]; tok_q (a); put_rc (mpq_QSchange_bound (p, j, lu, a)); }
+	else if (!strcmp (c, "chgbounds"))
+	{
+		char *lu;
+		p = slot (); k = tok_int ();
+		ind = (int *) malloc (sizeof (int) * (k + 1)); lu = (char *) malloc (k + 1); val = mpq_EGlpNumAllocArray (k + 1);
+		for (i = 0; i < k; i++) { ind[i] = tok_int (); lu[i] = tok ()[0]; tok_q (val[i]); }
+		put_rc (mpq_QSchange_bounds (p, k, ind, lu, (const mpq_t *) val));
+		free (lu);
+	}
+	else if (!strcmp (c, "chgobjsense"))
+	{
+		const char *t;
+		p = slot (); t = tok ();
+		put_rc (mpq_QSchange_objsense (p, !strcmp (t, "min") ? QS_MIN : !strcmp (t, "max") ? QS_MAX : atoi (t)));
+	}
+	else if (!strcmp (c, "getcoef"))
+	{
+		int r, j;
+		p = slot (); r = tok_int (); j = tok_int ();
+		mpq_set_si (a, 424242, 1);
+		rv = mpq_QSget_coef (p, r, j, &a);
+		put_rc (rv);
+		if (!rv) { printf ("coef "); put_q (a); putchar ('\n'); }
+	}
+	else if (!strcmp (c, "getbound"))
+	{
+		int j, lu;
+		p = slot (); j = tok_int (); lu = tok ()[0];
+		rv = mpq_QSget_bound (p, j, lu, &a);
+		put_rc (rv);
+		if (!rv) { printf ("bound "); put_q (a); putchar ('\n'); }
+	}
+	else if (!strcmp (c, "colindex") || !strcmp (c, "rowindex"))
+	{
+		int idx = -7;
+		p = slot (); name = tok_name ();
+		rv = c[0] == 'c' ? mpq_QSget_column_index (p, name, &idx) : mpq_QSget_row_index (p, name, &idx);
+		put_rc (rv);
+		if (!rv) printf ("index %d\n", idx);
+	}
+	else if (!strcmp (c, "copy"))
+	{
+		int dst;
+		p = slot (); dst = tok_int ();
+		if (dst < 0 || dst >= NSLOT) printf ("bad-op slot\n");
+		else
+		{
+			if (SLOT[dst]) mpq_QSfree_prob (SLOT[dst]);
+			SLOT[dst] = mpq_QScopy_prob (p, "copy");
+			put_rc (SLOT[dst] == 0);
+		}
+	}
+	else if (!strcmp (c, "create"))
+	{
+		int dst = tok_int ();
+		const char *t = tok ();
+		if (dst < 0 || dst >= NSLOT) printf ("bad-op slot\n");
+		else
+		{
+			if (SLOT[dst]) mpq_QSfree_prob (SLOT[dst]);
+			SLOT[dst] = mpq_QScreate_prob ("P", !strcmp (t, "max") ? QS_MAX : QS_MIN);
+			put_rc (SLOT[dst] == 0);
+		}
+	}
+	else
+	{
+		mpq_clear (a); mpq_clear (b); mpq_clear (d);
+		return 0;
+	}
+	mpq_clear (a); mpq_clear (b); mpq_clear (d);
+	free (ind);
+	free (name);
+	if (val) mpq_EGlpNumFreeArray (val);
+	return 1;
+}
+
+/* raw column store: capacities and the arrays of ILLmatrix, maps (C06 tie (b), C17) */
+static void dump_raw (mpq_QSdata * p)
+{
+	mpq_ILLlpdata *q = p->qslp;
+	mpq_ILLmatrix *A = &q->A;
+	int i, used = A->matsize - A->matfree;
+	printf ("raw nrows=%d ncols=%d nstruct=%d nzcount=%d rowsize=%d colsize=%d structsize=%d matrows=%d matcols=%d matsize=%d matfree=%d matcolsize=%d rangeval=%d\n",
+					q->nrows, q->ncols, q->nstruct, q->nzcount, q->rowsize, q->colsize, q->structsize, A->matrows, A->matcols, A->matsize, A->matfree,
+					A->matcolsize, q->rangeval ? 1 : 0);
+	printf ("structmap %d", q->nstruct);
+	for (i = 0; i < q->nstruct; i++) printf (" %d", q->structmap[i]);
+	printf ("\nrowmap %d", q->nrows);
+	for (i = 0; i < q->nrows; i++) printf (" %d", q->rowmap[i]);
+	printf ("\nmatbeg %d", A->matcols);
+	for (i = 0; i < A->matcols; i++) printf (" %d", A->matbeg[i]);
+	printf ("\nmatcnt %d", A->matcols);
+	for (i = 0; i < A->matcols; i++) printf (" %d", A->matcnt[i]);
+	printf ("\nmatind %d", used);
+	for (i = 0; i < used; i++) printf (" %d", A->matind[i]);
+	printf ("\nfreeclean %d\n", ({ int ok = 1, t; for (t = used; t < A->matsize; t++) if (A->matind[t] != -1) ok = 0; ok; }));
+}
+
 int qsx_more_commands (const char *c)
 {
+	if (edit_commands (c)) return 1;
 	if (!strcmp (c, "dumpapi")) dump_api (slot ());
+	else if (!strcmp (c, "dumpraw")) dump_raw (slot ());
 	else if (!strcmp (c, "scan")) cmd_scan ();
 	else if (!strcmp (c, "read")) cmd_read ();
 	else if (!strcmp (c, "write")) cmd_write ();
@@ -219,6 +438,25 @@ int qsx_more_commands (const char *c)
 	else if (!strcmp (c, "readbasis")) cmd_readbasis ();
 	else if (!strcmp (c, "loadbasis")) cmd_loadbasis ();
 	else if (!strcmp (c, "putfile")) cmd_putfile ();
+	else if (!strcmp (c, "setparam")) { mpq_QSdata *p = slot (); int w = tok_int (), v = tok_int (); printf ("rc %d\n", mpq_QSset_param (p, w, v) ? 1 : 0); }
+	else if (!strcmp (c, "getparam")) { mpq_QSdata *p = slot (); int w = tok_int (), v = -777, rv = mpq_QSget_param (p, w, &v); printf ("rc %d\n", rv ? 1 : 0); if (!rv) printf ("value %d\n", v); }
+	else if (!strcmp (c, "loadbasisarray"))
+	{
+		mpq_QSdata *p = slot ();
+		QSbasis *B = tok_basis2 ();
+		printf ("rc %d\n", mpq_QSload_basis_array (p, B->cstat, B->rstat) ? 1 : 0);
+		free (B->cstat); free (B->rstat); free (B);
+	}
+	else if (!strcmp (c, "getbasisarray"))
+	{
+		mpq_QSdata *p = slot ();
+		int nc = mpq_QSget_colcount (p), nr = mpq_QSget_rowcount (p), rv;
+		char *cs = (char *) calloc (nc + 2, 1), *rs = (char *) calloc (nr + 2, 1);
+		rv = mpq_QSget_basis_array (p, cs, rs);
+		printf ("rc %d\n", rv ? 1 : 0);
+		if (!rv) printf ("basis %s %s\n", nc ? cs : "-", nr ? rs : "-");
+		free (cs); free (rs);
+	}
 	else if (!strcmp (c, "getfile")) { char *path = unhex (tok ()); put_file (path); free (path); }
 	else return 0;
 	return 1;
